@@ -6,8 +6,8 @@ from collections import Counter
 from typing import Dict, List, Optional, Tuple
 
 from ..collect import Path, callee_is, run_paths
-from ..common import calls_in, construct, where
-from ..flow import ANY_EXC, NONE, Value, show, subterms
+from ..common import calls_in, construct, defs_of, where
+from ..flow import ANY_EXC, NONE, Value, show, strparts, subterms
 from ..loader import AnalysisError, ClassInfo, FuncInfo, Program, walk_shallow
 from ..report import Report, Undecided
 
@@ -130,6 +130,8 @@ def canon(fn_node: ast.AST) -> ast.AST:
                 ren[tg[0]] = "boundary_len"
         elif isinstance(n, ast.Lambda) and len(n.args.args) == 2:
             ren.update({n.args.args[0].arg: "start", n.args.args[1].arg: "end"})
+        elif isinstance(n, ast.FunctionDef) and n is not t and len(n.args.args) == 2 and not n.args.kwonlyargs and not n.args.vararg:
+            ren.update({n.args.args[0].arg: "start", n.args.args[1].arg: "end"})
     # second pass for names that depend on the first (ranges -> start, end ; ranges[0])
     for n in ast.walk(t):
         if isinstance(n, (ast.For, ast.AsyncFor, ast.comprehension)) and isinstance(n.iter, ast.Name) and ren.get(n.iter.id) == "ranges":
@@ -145,12 +147,132 @@ def canon(fn_node: ast.AST) -> ast.AST:
     for n in ast.walk(t):
         if isinstance(n, ast.Name) and n.id in ren:
             n.id = ren[n.id]
-        elif isinstance(n, ast.arg) and n.arg in ren and any(n in l.args.args for l in ast.walk(t) if isinstance(l, ast.Lambda)):
+        elif isinstance(n, ast.arg) and n.arg in ren and any(n in l.args.args for l in ast.walk(t) if isinstance(l, ast.Lambda) or (isinstance(l, ast.FunctionDef) and l is not t)):
             n.arg = ren[n.arg]
     for n in ast.walk(t):
         for c in ast.iter_child_nodes(n):
             c._parent = n  # type: ignore[attr-defined]
     return t
+
+
+class _FnShim:
+    """what common.defs_of needs of a function, for a canon()-ised copy of its tree"""
+
+    def __init__(self, node: ast.AST) -> None:
+        self.node = node
+        a = node.args  # type: ignore[attr-defined]
+        self.params = [x.arg for x in a.posonlyargs + a.args + a.kwonlyargs] + ([a.vararg.arg] if a.vararg else []) + ([a.kwarg.arg] if a.kwarg else [])
+
+
+def _length_formula(fn_node: ast.AST, result: ast.expr) -> Tuple[Lin, Lin]:
+    """(constant part, per-range part) of the integer `result` computed by the straight-line body of generate_multipart:
+    value = constant + SUM over (start, end) in ranges of per-range. Understands `sum(<e> for start, end in ranges)`, and the
+    accumulation `acc = <c>; for start, end in ranges: acc += <e>` (with locals assigned inside the loop)."""
+    env: Dict[str, Tuple[Lin, Lin]] = {}
+
+    def plain_env(loop_env: Dict[str, ast.expr]):
+        return loop_env
+
+    def pair(e: ast.expr, loc: Dict[str, ast.expr]) -> Tuple[Lin, Lin]:
+        if isinstance(e, ast.Name) and e.id in env and e.id not in loc:
+            return env[e.id]
+        if isinstance(e, ast.BinOp) and isinstance(e.op, ast.Add):
+            a, b = pair(e.left, loc), pair(e.right, loc)
+            return a[0] + b[0], a[1] + b[1]
+        if isinstance(e, ast.Call) and isinstance(e.func, ast.Name) and e.func.id == "sum" and len(e.args) == 1 and isinstance(e.args[0], (ast.GeneratorExp, ast.ListComp)):
+            g = e.args[0]
+            if len(g.generators) == 1 and ast.unparse(g.generators[0].target) == "(start, end)" and ast.unparse(g.generators[0].iter) == "ranges" and not g.generators[0].ifs:
+                return Lin(), _lin_env(g.elt, loc, env)
+            raise Undecided(f"R2.1: sum over something other than `start, end in ranges`: {ast.unparse(e)[:60]}")
+        return _lin_env(e, loc, env), Lin()
+
+    def block(body: List[ast.stmt], in_loop: bool, loc: Dict[str, ast.expr]) -> None:
+        for st in body:
+            if isinstance(st, ast.Expr) and isinstance(st.value, ast.Constant):
+                continue
+            if isinstance(st, (ast.Return, ast.FunctionDef, ast.Pass)):
+                continue
+            if isinstance(st, (ast.Assign, ast.AnnAssign)) and (isinstance(st, ast.AnnAssign) or len(st.targets) == 1):
+                tgt = st.target if isinstance(st, ast.AnnAssign) else st.targets[0]
+                if st.value is None:
+                    continue
+                if isinstance(tgt, ast.Name):
+                    if in_loop:
+                        loc[tgt.id] = st.value
+                    else:
+                        try:
+                            env[tgt.id] = pair(st.value, loc)
+                        except Undecided:
+                            env.pop(tgt.id, None)  # not a length (boundary text, ...): only matters if the result uses it
+                    continue
+            if isinstance(st, ast.AugAssign) and isinstance(st.op, ast.Add) and isinstance(st.target, ast.Name):
+                cur = env.get(st.target.id)
+                if cur is None:
+                    raise Undecided(f"R2.1: accumulation into an unknown quantity: {ast.unparse(st)[:60]}")
+                if in_loop:
+                    env[st.target.id] = (cur[0], cur[1] + _lin_env(st.value, loc, env))
+                else:
+                    add = pair(st.value, loc)
+                    env[st.target.id] = (cur[0] + add[0], cur[1] + add[1])
+                continue
+            if isinstance(st, ast.For) and not in_loop and ast.unparse(st.target) == "(start, end)" and ast.unparse(st.iter) == "ranges" and not st.orelse:
+                block(st.body, True, {})
+                continue
+            if any(isinstance(n, ast.Name) and isinstance(n.ctx, ast.Store) and n.id in env for n in ast.walk(st)):
+                raise Undecided(f"R2.1: a length quantity is changed by a statement outside the accumulation fragment: {' '.join(ast.unparse(st).split())[:60]}")
+
+    block(fn_node.body, False, {})
+    c, r = pair(result, {})
+    if not r:
+        raise Undecided(f"R2.1: content_length has no per-range part: {ast.unparse(result)[:80]}")
+    return c, r
+
+
+def _lin_env(e: ast.expr, loc: Dict[str, ast.expr], env: Dict[str, Tuple[Lin, Lin]]) -> Lin:
+    """lin_of with loop-local expressions substituted and function-level quantities (which must be range-independent) looked up"""
+    if isinstance(e, ast.Name) and e.id in loc:
+        return _lin_env(loc[e.id], loc, env)
+    if isinstance(e, ast.Name) and e.id in env:
+        c, r = env[e.id]
+        if r:
+            raise Undecided(f"R2.1: {e.id} already contains a sum over the ranges")
+        return c
+    if isinstance(e, ast.BinOp) and isinstance(e.op, ast.Add):
+        return _lin_env(e.left, loc, env) + _lin_env(e.right, loc, env)
+    return lin_of(e, {})
+
+
+def _generator_lambda(p: Program, gm: FuncInfo, gmn: ast.AST, g: ast.expr) -> ast.Lambda:
+    """The part-header generator as `lambda start, end: <expression>`: a lambda, or a nested function with a single return,
+    whose body may delegate to a module-level helper with a single return (its parameters substituted by the arguments)."""
+    import copy
+
+    if isinstance(g, ast.Lambda):
+        return g
+    if isinstance(g, ast.Name):
+        defs = [n for n in ast.walk(gmn) if isinstance(n, ast.FunctionDef) and n is not gmn and n.name == g.id]
+        lams = [n.value for n in ast.walk(gmn) if isinstance(n, ast.Assign) and len(n.targets) == 1 and isinstance(n.targets[0], ast.Name) and n.targets[0].id == g.id and isinstance(n.value, ast.Lambda)]
+        if len(lams) == 1 and not defs:
+            return lams[0]
+        if len(defs) == 1:
+            d = defs[0]
+            body = [st for st in d.body if not (isinstance(st, ast.Expr) and isinstance(st.value, ast.Constant))]
+            if len(body) == 1 and isinstance(body[0], ast.Return) and body[0].value is not None and len(d.args.args) == 2:
+                expr = body[0].value
+                if isinstance(expr, ast.Call) and isinstance(expr.func, ast.Name) and not expr.keywords:
+                    h = gm.module.functions.get(expr.func.id)
+                    if h is not None and not h.decorators:
+                        hb = [st for st in h.node.body if not (isinstance(st, ast.Expr) and isinstance(st.value, ast.Constant))]
+                        hp = [a.arg for a in h.node.args.args]
+                        if len(hb) == 1 and isinstance(hb[0], ast.Return) and hb[0].value is not None and len(hp) == len(expr.args) and all(isinstance(a, ast.Name) for a in expr.args):
+                            sub = {pn: a.id for pn, a in zip(hp, expr.args)}
+                            ex2 = copy.deepcopy(hb[0].value)
+                            for n in ast.walk(ex2):
+                                if isinstance(n, ast.Name) and n.id in sub:
+                                    n.id = sub[n.id]
+                            expr = ex2
+                return ast.Lambda(args=d.args, body=expr)
+    raise Undecided("R2.1: the header generator is not a lambda / single-return function")
 
 
 def run(p: Program, rep: Report, tier: str) -> None:
@@ -178,30 +300,13 @@ def run(p: Program, rep: Report, tier: str) -> None:
 
     # ---------------------------------------------------------------- R2.1
     gmn = canon(gm.node)
-    env: Dict[str, ast.expr] = {}
-    for n in walk_shallow(gmn):
-        if isinstance(n, ast.Assign) and isinstance(n.targets[0], ast.Name):
-            env[n.targets[0].id] = n.value
     ret = [n for n in walk_shallow(gmn) if isinstance(n, ast.Return)]
-    if not ret or not isinstance(ret[0].value, ast.Tuple) or len(ret[0].value.elts) != 2:
+    if len(ret) != 1 or not isinstance(ret[0].value, ast.Tuple) or len(ret[0].value.elts) != 2:
         raise Undecided("R2.1: generate_multipart no longer returns (content_length, header generator)")
     cl_expr, lam = ret[0].value.elts
-    if isinstance(cl_expr, ast.Name):
-        cl_expr = env.get(cl_expr.id, cl_expr)
-    if not isinstance(lam, ast.Lambda):
-        raise Undecided("R2.1: the header generator is not a lambda")
-    # content_length = sum(<per range> for start, end in ranges) + <closing>
-    per_range_formula = closing_formula = None
-    if isinstance(cl_expr, ast.BinOp) and isinstance(cl_expr.op, ast.Add):
-        for side in (cl_expr.left, cl_expr.right):
-            if isinstance(side, ast.Call) and isinstance(side.func, ast.Name) and side.func.id == "sum" and isinstance(side.args[0], ast.GeneratorExp):
-                g = side.args[0]
-                if ast.unparse(g.generators[0].target) == "(start, end)" and ast.unparse(g.generators[0].iter) == "ranges" and not g.generators[0].ifs:
-                    per_range_formula = lin_of(g.elt, env)
-            else:
-                closing_formula = lin_of(side, env)
-    if per_range_formula is None or closing_formula is None:
-        raise Undecided(f"R2.1: content_length is not `sum(per range for start, end in ranges) + closing`: {ast.unparse(cl_expr)[:80]}")
+    # content_length = <closing> + sum over the ranges of <per range>, however it is accumulated
+    closing_formula, per_range_formula = _length_formula(gmn, cl_expr)
+    lam = _generator_lambda(p, gm, gmn, lam)
     header_emitted = lin_of_fstring(lam.body)
     lam_params = [a.arg for a in lam.args.args]
     for side in ("wsgi", "asgi"):
@@ -231,7 +336,17 @@ def run(p: Program, rep: Report, tier: str) -> None:
 
         per = Lin()
         hdr_calls = data_parts = 0
-        for e in emitted_pieces(loop.body):
+        shim = _FnShim(hn)
+
+        def resolved(es: List[ast.expr]) -> List[ast.expr]:
+            # a piece held in a local that is assigned once (`closing = f"--{boundary}--\n".encode(...)`) is that expression
+            out_: List[ast.expr] = []
+            for e_ in es:
+                ds = defs_of(shim, e_) if isinstance(e_, ast.Name) else [e_]
+                out_.append(ds[0] if len(ds) == 1 else e_)
+            return out_
+
+        for e in resolved(emitted_pieces(loop.body)):
             if isinstance(e, ast.Call) and isinstance(e.func, ast.Name) and e.func.id == "generate_headers":
                 if [ast.unparse(a) for a in e.args] != lam_params:
                     rep.violation("R2.1", construct(h, e), where(h, e), f"{side}: the part header is generated for {[ast.unparse(a) for a in e.args]}, not for (start, end) of the range being sent")
@@ -272,24 +387,49 @@ def run(p: Program, rep: Report, tier: str) -> None:
         if loop in parent_body:
             after = parent_body[parent_body.index(loop) + 1:]
         closing = Lin()
-        for e in emitted_pieces(after):
+        for e in resolved(emitted_pieces(after)):
             closing = closing + lin_of_fstring(e)
         if closing == closing_formula:
             rep.ok("R2.1", f"{side}: closing delimiter bytes == formula == {closing.show()}")
         else:
             rep.violation("R2.1", construct("baize.responses:FileResponseMixin.generate_multipart", text=f"closing length: formula {closing_formula.show()} | {side} emits {closing.show()}"), where(gm),
                           f"the closing-delimiter term of the Content-Length formula disagrees with what {side} emits after the last range")
-        # content-length header is the formula's value
-        hs = [n for n in walk_shallow(hn) if isinstance(n, ast.Assign) and ast.unparse(n.targets[0]).replace('"', "'") == "self.headers['content-length']"]
-        if hs and ast.unparse(hs[0].value) == "str(content_length)" and any(isinstance(n, ast.Assign) and ast.unparse(n.targets[0]) == "(content_length, generate_headers)" and "generate_multipart(ranges, boundary, file_size, self.content_type)" in ast.unparse(n.value) for n in walk_shallow(hn)):
+        # content-length header is the formula's value; content-type announces the boundary (decided on the paths: aliases of
+        # self.headers and locals do not matter)
+        hpaths, hcol, _hit = run_paths(p, h, cls, inline=lambda fi: fi.name == "create_send_or_zerocopy", depth=2)
+        rep.cfg_paths += len(hpaths)
+        cl_ok = ct_ok = 0
+        cl_bad = ct_bad = None
+        for pa in hpaths:
+            if pa.exit != "return":
+                continue
+            st_ = {}
+            for e in pa.events:
+                if e.kind == "store" and e.a[0] == "sub" and e.a[1] == ("attr", ("param", "self"), "headers") and e.a[2][0] == "const":
+                    st_[str(e.a[2][1]).lower()] = e.b
+            gmc = [e for e in pa.events if e.kind == "call" and callee_is(e.a, "generate_multipart")]
+            bnd = gmc[0].b[1] if gmc and len(gmc[0].b) == 4 else None
+            okargs = bool(gmc) and len(gmc[0].b) == 4 and gmc[0].b[0] == ("param", "ranges") and gmc[0].b[2] == ("param", "file_size") and gmc[0].b[3] == ("attr", ("param", "self"), "content_type")
+            v = st_.get("content-length")
+            if okargs and v is not None and v[0] == "call" and v[1] == ("builtin", "str") and len(v[2]) == 1 and v[2][0][0] == "unpack" and v[2][0][2] == 0 \
+                    and v[2][0][1][0] == "call" and callee_is(v[2][0][1][1], "generate_multipart"):
+                cl_ok += 1
+            else:
+                cl_bad = show(v)[:60] if v is not None else "missing"
+            v = st_.get("content-type")
+            parts = strparts(v) if v is not None else None
+            if parts is not None and len(parts) == 2 and parts[0] == ("const", "multipart/byteranges; boundary=") and bnd is not None and parts[1] == bnd:
+                ct_ok += 1
+            else:
+                ct_bad = show(v)[:60] if v is not None else "missing"
+        if cl_ok and cl_bad is None:
             rep.ok("R2.1", f"{side}: content-length header = str(content_length) of generate_multipart(ranges, boundary, file_size, self.content_type)")
         else:
-            rep.violation("R2.1", construct(h, text="content-length of the multipart body"), where(h), f"{side}: the multipart Content-Length header is not the value computed by generate_multipart for these ranges")
-        ct = [n for n in walk_shallow(hn) if isinstance(n, ast.Assign) and ast.unparse(n.targets[0]).replace('"', "'") == "self.headers['content-type']"]
-        if ct and ast.unparse(ct[0].value).replace('"', "'") == "f'multipart/byteranges; boundary={boundary}'":
+            rep.violation("R2.1", construct(h, text="content-length of the multipart body"), where(h), f"{side}: the multipart Content-Length header is not the value computed by generate_multipart for these ranges (got {cl_bad})")
+        if ct_ok and ct_bad is None:
             rep.ok("R2.1", f"{side}: content-type announces the boundary that is used")
         else:
-            rep.violation("R2.1", construct(h, text="multipart content-type"), where(h), f"{side}: Content-Type does not announce multipart/byteranges with the boundary that delimits the parts")
+            rep.violation("R2.1", construct(h, text="multipart content-type"), where(h), f"{side}: Content-Type does not announce multipart/byteranges with the boundary that delimits the parts (got {ct_bad})")
     rep.require_instances("R2.1", 9)
 
     # ---------------------------------------------------------------- R2.2 handlers
@@ -607,19 +747,44 @@ def run(p: Program, rep: Report, tier: str) -> None:
                 rep.violation("R2.6", construct(fs, text="unclamped read"), where(fs, c), f"asgi: {why}: bytes beyond the requested range can be read and sent (Content-Length no longer matches the body)")
             # stop condition
             if isinstance(loop, ast.While):
+                # everything that can end the loop: its test, the flags the test reads, the guards of its `break`s
+                const_true = isinstance(loop.test, ast.Constant) and bool(loop.test.value)
                 flags = {x.id for x in ast.walk(loop.test) if isinstance(x, ast.Name)}
-                if mentions_derived(loop.test):
-                    rep.ok("R2.6", "asgi fallback sender: the bounded loop tests the count bookkeeping")
-                else:
+                stops: List[Tuple[ast.AST, ast.expr]] = []
+                direct = (not const_true) and mentions_derived(loop.test)
+                if not const_true and not direct:
                     sets = [n for n in ast.walk(loop) if isinstance(n, ast.Assign) and any(isinstance(t, ast.Name) and t.id in flags for t in n.targets)]
-                    badset = [n for n in sets if not mentions_derived(n.value) and not (isinstance(n.value, ast.Constant) and n.value.value is False) and bounded(n) is not False]
-                    if sets and not badset:
-                        rep.ok("R2.6", "asgi fallback sender: the bounded loop stops when the count bookkeeping says the last piece was read")
-                    else:
-                        n0 = badset[0] if badset else loop
-                        rep.violation("R2.6", construct(fs, text="stop condition independent of the count"), where(fs, n0),
-                                      f"asgi: the bounded copy loop decides to stop from `{ast.unparse(n0.value)[:50] if badset else ast.unparse(loop.test)[:50]}`, which does not depend on the byte count: a range whose length is a multiple of "
-                                      "the chunk size is followed by one more chunk (or an empty final event)")
+                    for n in sets:
+                        if isinstance(n.value, ast.Constant) and n.value.value is False:
+                            continue
+                        if bounded(n) is False:
+                            continue
+                        stops.append((n, n.value))
+                    if not sets:
+                        stops.append((loop, loop.test))
+                for b_ in ast.walk(loop):
+                    if isinstance(b_, (ast.Break, ast.Return)) and next((q for q in _parents(b_) if isinstance(q, (ast.While, ast.For, ast.AsyncFor))), None) is loop:
+                        gs = _gof(b_, loop)
+                        if not gs:
+                            continue
+                        if bounded(b_) is False:
+                            continue
+                        if any(mentions_derived(g_) for g_, _pol in gs):
+                            stops.append((b_, next(g_ for g_, _pol in gs if mentions_derived(g_))))
+                        else:
+                            stops.append((b_, gs[-1][0]))
+                bad_stops = [(n_, e_) for n_, e_ in stops if not mentions_derived(e_)]
+                if direct and not bad_stops:
+                    rep.ok("R2.6", "asgi fallback sender: the bounded loop tests the count bookkeeping")
+                elif stops and not bad_stops:
+                    rep.ok("R2.6", "asgi fallback sender: the bounded loop stops when the count bookkeeping says the last piece was read")
+                elif bad_stops:
+                    n0, e0 = bad_stops[0]
+                    rep.violation("R2.6", construct(fs, text="stop condition independent of the count"), where(fs, n0),
+                                  f"asgi: the bounded copy loop decides to stop from `{ast.unparse(e0)[:50]}`, which does not depend on the byte count: a range whose length is a multiple of "
+                                  "the chunk size is followed by one more chunk (or an empty final event)")
+                else:
+                    rep.undecide("R2.6", "asgi fallback sender: the bounded loop has no recognisable stop condition")
         if n_b == 0:
             rep.undecide("R2.6", "asgi fallback sender: no read under `count is not None`")
     rep.require_instances("R2.6", 2)
